@@ -29,7 +29,18 @@ fn render_ty(t: &Value) -> String {
 fn render_attrs(v: &Value, indent: &str) -> String {
     let mut o = String::new();
     for a in arr(v, "attrs") {
-        o.push_str(&format!("{}#[{}]\n", indent, s(&a, "text")));
+        // the same attribute in the layouts a formatter or a macro leaves behind (chosen by the attribute's own text, so
+        // that a project renders the same way every time): blanks inside the brackets, around `::`, a line per token
+        let text = s(&a, "text");
+        let h = text.bytes().fold(7u32, |acc, b| acc.wrapping_mul(31).wrapping_add(b as u32));
+        let line = match h % 9 {
+            0 => format!("{}#[ {} ]\n", indent, text),
+            1 => format!("{}# [{}]\n", indent, text),
+            2 if !text.contains('"') => format!("{}#[{}]\n", indent, text.replace("::", " :: ")),
+            3 => format!("{}#[\n{}    {}\n{}]\n", indent, indent, text, indent),
+            _ => format!("{}#[{}]\n", indent, text),
+        };
+        o.push_str(&line);
     }
     o
 }
@@ -777,7 +788,7 @@ pub fn random_project(rng: &mut Rng, nfiles: usize, adversarial: bool, externs: 
         // stems include names ending in `Schema` / `Params`-like words and names of well-known std types used as *user* types
         let name = if t == 0 && rng.chance(1, 2) {
             // the first type often carries the name of a well-known external type (a qualified mapping key may end in it)
-            (*rng.pick(&["Duration", "Path", "Value"])).to_string()
+            (*rng.pick(&["Duration", "Path", "Value", "State", "Window", "Request"])).to_string()
         } else if rng.chance(1, 6) {
             (*rng.pick(&["Duration", "Duration", "Duration", "Path", "Path", "Value", "Value", "TableSchema", "Path", "PathBuf", "Duration", "Value", "Params", "Channel0", "Result0", "OptionLike", "設定", "用户", "Ünit", "Ωmega", "MapRegion", "RecordingInfo", "Mapper", "Records", "PromiseLike", "ArrayBuf", "Rgb", "RGB", "Vector3", "VecStats", "HashSetLike", "BoxedValue", "ResultCode", "Sensor_Reading", "snake_type", "HTTPServer"])).to_string() + if t % 2 == 0 { "" } else { "X" }
         } else {
@@ -898,7 +909,10 @@ pub fn random_project(rng: &mut Rng, nfiles: usize, adversarial: bool, externs: 
                     2 => fa.push(attr(*rng.pick(&["serde(default)", "serde(flatten)", "serde(flatten, default)", "serde(borrow)", "serde(with = \"serde_bytes\")"]))),
                     3 => fa.push(attr("serde(skip_serializing_if = \"Option::is_none\")")),
                     4 => fa.push(attr("validate(length(min = 1, max = 64))")),
-                    5 => fa.push(attr("validate(range(min = 0, max = 100), email)")),
+                    5 => fa.push(attr(*rng.pick(&["validate(range(min = 0, max = 100), email)", "validate(range(min = 0, max = 100), email)",
+                        // `email` / `url` with a message of their own, the message with a quote, a backslash, a line break in it
+                        "validate(email(message = \"Enter a \\\"real\\\" address\"))", "validate(url(message = \"back\\\\slash and\\nline break\"), length(min = 3))",
+                        "validate(email(message = \"plain text\"), length(max = 64, message = \"too long\"))"]))),
                     _ => {}
                 }
                 let skipped = fa.first().map_or(false, |a| s(a, "text") == "serde(skip)");
@@ -908,7 +922,9 @@ pub fn random_project(rng: &mut Rng, nfiles: usize, adversarial: bool, externs: 
                 } else {
                     any_ty(rng, &type_names, 2, adversarial)
                 };
-                json!({"name": format!("{}{}", rng.pick(&field_names), k), "vis": rng.pick(&["pub", "", "pub(crate)"]), "ty": ty_json(&ty), "attrs": fa})
+                // (adversarial stream: now and then a field spelled as a raw identifier)
+                let fname = if adversarial && rng.chance(1, 10) { (*rng.pick(&["r#type", "r#ref", "r#match"])).to_string() } else { format!("{}{}", rng.pick(&field_names), k) };
+                json!({"name": fname, "vis": rng.pick(&["pub", "", "pub(crate)"]), "ty": ty_json(&ty), "attrs": fa})
             }).collect();
             let mut fields = fields;
             if let Some(l) = &forced_ref {
@@ -1014,6 +1030,10 @@ pub fn random_project(rng: &mut Rng, nfiles: usize, adversarial: bool, externs: 
         if adversarial && rng.chance(1, 5) {
             params.push(raw_param(&format!("odd{}", c), *rng.pick(NOT_INJECTED), "value_raw"));
         }
+        if adversarial && rng.chance(1, 6) {
+            // an optional parameter whose `Option` is spelled with its path: omissible all the same, in both modes
+            params.push(raw_param(&format!("maybe{}", c), *rng.pick(&["std::option::Option<String>", "core::option::Option<u32>", "::std::option::Option<Vec<u8>>"]), "value_raw"));
+        }
         if adversarial && rng.chance(1, 4) {
             // value parameters of types outside the README table: still parameters the frontend has to supply
             params.push(raw_param(&format!("key_bytes{}", c), *rng.pick(&["[u8; 4]", "&[u8]", "[[f32; 2]; 2]", "Box<[u8]>", "fn(u8) -> u8", "*const u8", "impl Into<String>"]), "value_raw"));
@@ -1025,6 +1045,15 @@ pub fn random_project(rng: &mut Rng, nfiles: usize, adversarial: bool, externs: 
             let mut p = raw_param(&chname, &sp.replace("{}", &msg.render()), "channel");
             p["chan_ty"] = ty_json(&msg);
             params.push(p);
+        }
+        if rng.chance(1, 9) {
+            // several channels on one command (stdout / stderr / progress), after at least one value parameter
+            for q in 0..3 + rng.below(2) {
+                let msg = any_ty(rng, &type_names, 1, false);
+                let mut p = raw_param(&format!("on_stream{}_{}", c, q), &CHANNELS[q % CHANNELS.len()].replace("{}", &msg.render()), "channel");
+                p["chan_ty"] = ty_json(&msg);
+                params.push(p);
+            }
         }
         if adversarial && rng.chance(1, 10) {
             params.push(raw_param("(a, b)", "(i32, i32)", "pattern"));
